@@ -220,6 +220,7 @@ def run(ctx):
                        "The encoder's length field is traced to the serialised payload. Structural clause; run-time chunkings are not decided.")
     decode(ctx)
     encode(ctx)
+    codecs_delegate(ctx)
 
 
 def decode(ctx):
@@ -443,3 +444,40 @@ def encode(ctx):
                   "header.unsplit(payload); dst.unsplit(header)",
                   "the frame is not assembled as header ++ payload appended to the output buffer (shape not understood or order changed)", **loc)
     ctx.sample("encode: length = (to_writer's buffer).len() as u64, big-endian, written into the 8-byte slot in front of the payload")
+
+
+# ---------------------------------------------------------------------------------------------------------------------
+# The decision table above is the framing behaviour only if the tokio codec impls add nothing to it: Decoder::decode and
+# Encoder::encode of both codecs hand their buffer to the two table-checked functions and do nothing else with it. Any other
+# use of the buffer, or any other way out (return / `?` / a hand-built Err), makes the outcome depend on how many bytes
+# happen to be buffered — i.e. on fragmentation and on back-to-back frames.
+
+def codecs_delegate(ctx):
+    F = ctx.facts
+    R_ = "K2-codec-delegates"
+    impls = sorted(n for n in F.find_fns(CORE, r"^kanidmd_core::<repl::codec::(Consumer|Supplier)Codec as tokio_util::codec::(decoder::Decoder|encoder::Encoder<.*>)>::(decode|encode)$"))
+    ctx.floor(R_, "Decoder/Encoder impls of the replication codecs", len(impls), 4)
+    for n in impls:
+        fn = ctx.fn(CORE, n)
+        want = DEC if n.endswith("::decode") else ENC
+        buf = [p["pat"].get("local") for p in fn["params"] if "BytesMut" in p["ty"] and p["pat"].get("p") == "bind"]
+        body = fn["body"]
+        dels = [c for c in all_calls(body) if callee_of(c) == want or want in callee_any(c)]
+        ok = len(dels) == 1 and len(buf) == 1
+        uses = [x for x in walk(body) if x.get("e") == "path" and x.get("res", {}).get("local") in buf]
+        inside = set()
+        if dels:
+            inside = {id(x) for x in walk(dels[0]) if x.get("e") == "path" and x.get("res", {}).get("local") in buf}
+        stray = [x for x in uses if id(x) not in inside]
+        exits = [x for x in walk(body) if not x.get("exp") and (x.get("e") == "ret" or (x.get("e") == "match" and str(x.get("src", "")).startswith("TryDesugar")))]
+        errs = [x for x in constructs(body, "core::result::Result::Err") if not x.get("exp")]
+        ctx.check(ok and not stray and not exits and not errs, R_, fn["fn"], "pure-delegation",
+                  f"{short(n, 2)} = {short(want, 1)}(.., buffer)",
+                  f"{short(n, 2)} does more than delegate to {short(want, 1)}: "
+                  + "; ".join(filter(None, [
+                      "" if ok else f"{len(dels)} delegation calls",
+                      f"the buffer is also used at line(s) {sorted({x.get('line') for x in stray})}" if stray else "",
+                      f"early exit at line(s) {sorted({x.get('line') for x in exits})}" if exits else "",
+                      f"constructs Err at line(s) {sorted({x.get('line') for x in errs})}" if errs else ""]))
+                  + " — the framing outcome then depends on how many bytes are buffered (fragmentation, back-to-back frames), outside the checked decision table",
+                  file=fn["file"], line=fn["line"])
